@@ -15,9 +15,15 @@ func (ts Timestamp) Time() time.Time {
 	return time.Unix(0, int64(ts))
 }
 
-// TimestampFromTime creates a Timestamp from a Time
+// TimestampFromTime creates a Timestamp from a Time.
+// A Time before 1970 has no (unsigned) Timestamp: it maps to 0, which is older
+// than any entry, instead of wrapping around to the far future.
 func TimestampFromTime(t time.Time) Timestamp {
-	return Timestamp(t.UnixNano())
+	n := t.UnixNano()
+	if n < 0 {
+		return 0
+	}
+	return Timestamp(n)
 }
 
 // TxnID is the LMDB transaction ID.
